@@ -115,6 +115,15 @@ func init() {
 		}
 		return nil
 	}
+	// Digest(name, v): self-test observation, compared between the engine and the native run.
+	I[zz+"Digest"] = func(fr *frame, fn *ssa.Function, args []Value) Value {
+		v := args[1].(Int)
+		if v.N != nil {
+			unsupported("Digest of a symbolic value")
+		}
+		fr.r.digests = append(fr.r.digests, fmt.Sprintf("%s=%d", argStr(args[0]), v.C))
+		return nil
+	}
 	I[zz+"Reach"] = func(fr *frame, fn *ssa.Function, args []Value) Value {
 		fr.r.reach[argStr(args[0])]++
 		return nil
